@@ -119,6 +119,14 @@ func (a *AuthenStart) MarshalBinary() ([]byte, error) {
 	if err := a.Validate(); err != nil {
 		return nil, err
 	}
+	if err := checkLengthFits(
+		lengthFit{"AuthenStart.User", a.User.Len(), maxUint8Len},
+		lengthFit{"AuthenStart.Port", a.Port.Len(), maxUint8Len},
+		lengthFit{"AuthenStart.RemAddr", a.RemAddr.Len(), maxUint8Len},
+		lengthFit{"AuthenStart.Data", a.Data.Len(), maxUint8Len},
+	); err != nil {
+		return nil, err
+	}
 	buf := make([]byte, 0, AuthenStartLen)
 	buf = append(buf, uint8(a.Action))
 	buf = append(buf, uint8(a.PrivLvl))
@@ -259,6 +267,12 @@ func (a *AuthenContinue) MarshalBinary() ([]byte, error) {
 	if err := a.Validate(); err != nil {
 		return nil, err
 	}
+	if err := checkLengthFits(
+		lengthFit{"AuthenContinue.UserMessage", a.UserMessage.Len(), maxUint16Len},
+		lengthFit{"AuthenContinue.Data", a.Data.Len(), maxUint16Len},
+	); err != nil {
+		return nil, err
+	}
 	buf := make([]byte, 0, AuthenContinueLen)
 	buf = appendUint16(buf, a.UserMessage.Len())
 	buf = appendUint16(buf, a.Data.Len())
@@ -377,6 +391,12 @@ func (a *AuthenReply) Validate() error {
 func (a *AuthenReply) MarshalBinary() ([]byte, error) {
 	// validate
 	if err := a.Validate(); err != nil {
+		return nil, err
+	}
+	if err := checkLengthFits(
+		lengthFit{"AuthenReply.ServerMsg", a.ServerMsg.Len(), maxUint16Len},
+		lengthFit{"AuthenReply.Data", a.Data.Len(), maxUint16Len},
+	); err != nil {
 		return nil, err
 	}
 	buf := make([]byte, 0, AuthenReplyLen)
